@@ -20,9 +20,10 @@ class Div(Exception):
 
 
 TAPS = 4
+COUNTS = {"second_recordings_followed": 0, "aligned_headers": 0, "via_data": 0}
 
 
-def record(c, inst, workdir, drift=0.0, T=None):
+def record(c, inst, workdir, drift=0.0, T=None, extra_cards=0):
     B, L = c["B"], c["L"]
     rate, fch1 = inst["rate"], inst["fch1"]
     s = 1.0 if c["asc"] else -1.0
@@ -45,8 +46,30 @@ def record(c, inst, workdir, drift=0.0, T=None):
     hd = {}
     if inst["directio"]:
         hd["DIRECTIO"] = 1
+    for k in range(extra_cards):
+        hd["VPAD%04d" % k] = k
     be.record(stem, num_blocks=1, length_mode="num_blocks", header_dict=hd, load_template=False, verbose=False)
-    return stem, f_tone, chan_bw * s, block_size, be
+    return stem, f_tone, chan_bw * s, block_size, be, src
+
+
+def header_cards(fn):
+    """Number of 80-byte cards of the first header, END included (harness-owned scan)."""
+    n = 0
+    with open(fn, "rb") as f:
+        while True:
+            card = f.read(80)
+            n += 1
+            if card.startswith(b"END ") or len(card) < 80:
+                return n
+
+
+def locate(fn, c, inst, L):
+    """(header, peak coarse channel, peak fine bin) of the first block of a file, by the harness's own parser and FFT."""
+    blocks = guppi.parse_file(fn)
+    v = guppi.decode_block(blocks[0]["data"], c["nch"], inst["pols"], 8)
+    P = fine_power(v[:, :, 0], L).sum(axis=0)
+    j, b = np.unravel_index(int(np.argmax(P)), P.shape)
+    return blocks[0]["hdr"], int(j), int(b)
 
 
 def hdr_freq(h, j, b, L):
@@ -67,10 +90,19 @@ def fine_power(x, L):
 def check(out, inst, workdir):
     c = out["cfg"]
     L = c["L"]
-    stem, f_tone, chan_bw, block_size, be = record(c, inst, workdir)
+    stem, f_tone, chan_bw, block_size, be, src = record(c, inst, workdir)
     fn = stem + ".0000.raw"
     try:
         blocks = guppi.parse_file(fn)
+        if inst.get("align") and inst["directio"]:
+            # a header that is already a multiple of 512 bytes (32 cards): DIRECTIO adds no padding then
+            ncards = header_cards(fn)
+            if ncards % 32 != 0:
+                stem, f_tone, chan_bw, block_size, be, src = record(c, inst, workdir, extra_cards=32 - ncards % 32)
+                blocks = guppi.parse_file(fn)
+                if header_cards(fn) % 32 != 0:
+                    raise Div("harness.align", "header of 32 n cards", header_cards(fn))
+            COUNTS["aligned_headers"] += 1
         h = blocks[0]["hdr"]
         v = guppi.decode_block(blocks[0]["data"], c["nch"], inst["pols"], 8)          # [nch, T, pols]
         P = fine_power(v[:, :, 0], L).sum(axis=0)                                       # [nch, L]
@@ -125,35 +157,71 @@ def check(out, inst, workdir):
                 raise Div("get_waterfall_from_raw.shape", [out["rows"], out["cols"]], list(ql.shape))
             if np.max(np.abs(ql - want)) > 1e-6 * np.max(want):
                 raise Div("get_waterfall_from_raw.values", "fine spectra of the first block", "mismatch (max rel %.3g)" % (np.max(np.abs(ql - want)) / np.max(want)))
+        # injection onto this recording (from_data with the same first-channel index): the output is registered like the input
+        if inst.get("via_data"):
+            src2 = v_antenna.Antenna(sample_rate=inst["rate"], fch1=inst["fch1"], ascending=c["asc"], num_pols=inst["pols"], seed=inst["seed"] + 1)
+            for st in src2.streams:
+                st.add_noise(0, 0.01)
+            try:
+                be2 = v_backend.RawVoltageBackend.from_data(stem, src2, digitizer=v_q.RealQuantizer(target_fwhm=32, num_bits=8),
+                                                            filterbank=v_pfb.PolyphaseFilterbank(num_taps=TAPS, num_branches=c["B"]),
+                                                            start_chan=c["start"], num_subblocks=2)
+                be2.record(os.path.join(workdir, "out"), num_blocks=1, length_mode="num_blocks", verbose=False)
+            except Exception as e:
+                raise Div("from_data.record", "ok", "%s: %s" % (type(e).__name__, str(e)[:150]))
+            h2, j2, b2 = locate(os.path.join(workdir, "out.0000.raw"), c, inst, L)
+            for card in ("OBSFREQ", "OBSBW", "CHAN_BW", "OBSNCHAN", "TBIN"):
+                if abs(float(h2[card]) - float(h[card])) > 1e-9 * abs(float(h[card])):
+                    raise Div("from_data.header", {card: h[card]}, {card: h2[card]})
+            if abs(hdr_freq(h2, j2, b2, L) - f_tone) > fbin * (1 + 1e-6):
+                raise Div("from_data.header_locates_tone", {"tone_hz": f_tone, "within_hz": fbin},
+                          {"peak_chan": j2, "peak_bin": b2, "header_freq_hz": hdr_freq(h2, j2, b2, L)})
+            COUNTS["via_data"] += 1
+            rp2 = raw_utils.get_raw_params(os.path.join(workdir, "out"), start_chan=c["start"])
+            if rp2["ascending"] != c["asc"] or abs(rp2["fch1"] - inst["fch1"]) > 1e-9 * abs(inst["fch1"]) + 1e-6 * abs(chan_bw):
+                raise Div("from_data.get_raw_params", {"ascending": c["asc"], "fch1": inst["fch1"]}, {k: rp2[k] for k in ("ascending", "fch1")})
     finally:
         for f in os.listdir(workdir):
             os.remove(os.path.join(workdir, f))
 
 
-def check_chirp(c, inst, workdir, drift_bins_per_seg):
-    """A chirp's instantaneous frequency follows f_start + drift * t (per-segment peak, header frequency)."""
+def check_chirp(c, inst, workdir, drift_bins_per_seg, nseg=8, second=False):
+    """A chirp's instantaneous frequency follows f_start + drift * t (per-segment peak, header frequency); with
+    second=True the same backend records a second observation and the chirp continues from the time already
+    elapsed on the source (the stream clocks themselves are decided by C10 / C15)."""
     L, B = c["L"], c["B"]
-    nseg = 8
     T = nseg * L
     chan_bw = inst["rate"] / B
     fbin = chan_bw / L
     tseg = L * B / inst["rate"]
     drift = drift_bins_per_seg * fbin / tseg
-    stem, f0, cbw, block_size, be = record(c, inst, workdir, drift=drift, T=T)
-    try:
-        blocks = guppi.parse_file(stem + ".0000.raw")
+    stem, f0, cbw, block_size, be, src = record(c, inst, workdir, drift=drift, T=T)
+
+    def follow(fn, elapsed, which):
+        blocks = guppi.parse_file(fn)
         h = blocks[0]["hdr"]
         v = guppi.decode_block(blocks[0]["data"], c["nch"], inst["pols"], 8)
         P = fine_power(v[:, :, 0], L)
         # PFB output spectrum n starts at input row n: spectra are delayed by the filter's group delay (taps-1)/2 rows + L/2
         for k in range(nseg):
             j, b = np.unravel_index(int(np.argmax(P[k])), P[k].shape)
-            t_mid = (k * L + L / 2.0 + (TAPS - 1) / 2.0 + 0.5) * B / inst["rate"]
+            t_mid = elapsed + (k * L + L / 2.0 + (TAPS - 1) / 2.0 + 0.5) * B / inst["rate"]
             want = f0 + drift * t_mid
             got = hdr_freq(h, j, b, L)
             if abs(got - want) > 1.5 * fbin:
-                raise Div("chirp_follows_drift", {"segment": k, "freq_hz": want, "tolerance_hz": 1.5 * fbin, "drift_hz_s": drift},
+                raise Div("chirp_follows_drift" + which, {"segment": k, "freq_hz": want, "tolerance_hz": 1.5 * fbin, "drift_hz_s": drift,
+                                                          "elapsed_s": elapsed},
                           {"freq_hz": got, "chan": int(j), "bin": int(b)})
+    try:
+        follow(stem + ".0000.raw", 0.0, "")
+        if second:
+            elapsed = float(src.streams[0].t_start)
+            want_elapsed = (T + TAPS) * B / inst["rate"]      # one block of T spectra: T + taps rows of B samples
+            if abs(elapsed - want_elapsed) > 0.5 / inst["rate"]:
+                return          # the stream clock is not this property's business (C10 / C15 / C02)
+            be.record(os.path.join(workdir, "reg2"), num_blocks=1, length_mode="num_blocks", load_template=False, verbose=False)
+            COUNTS["second_recordings_followed"] += 1
+            follow(os.path.join(workdir, "reg2.0000.raw"), elapsed, ".second_recording")
     finally:
         for f in os.listdir(workdir):
             os.remove(os.path.join(workdir, f))
